@@ -20,7 +20,7 @@ func init() {
 		Title:      "Parse then print preserves the meaning of every accepted module",
 		Decided:    "over every construct of the translator and printers: each grammar alternative is dispatched or rejected with an error, never a panic or silent skip (EXH, SIB); scaffold and fill translators agree on the IR type per AST node (PAIR); every syntax accessor of every handled AST node is read and used (ACC) and lands in the like-named IR field (FLOW); every IR field the parser allocates is filled (FLD-W) and every IR field is read by its printer (FLD-P), in grammar order (ORD), under the right opcode keyword (OPC); errors of the translator's own functions are returned, never dropped or turned into panics (ERR), and never accompanied by a module (NILMOD).",
 		NotDecided: "that the printed text means the same to LLVM at the level of values (literal formatting is C09/C10/C11); crashes guarded by data conditions (e.g. `i1 -1`); the alias-typedef defect F2 (found by reading, no rule).",
-		Rules:      []RuleUse{{Rule: "EXH"}, {Rule: "SIB"}, {Rule: "PAIR"}, {Rule: "ACC"}, {Rule: "FLOW"}, {Rule: "FLD-W"}, {Rule: "FLD-P"}, {Rule: "ORD"}, {Rule: "OPC"}},
+		Rules:      []RuleUse{{Rule: "EXH"}, {Rule: "SIB"}, {Rule: "PAIR"}, {Rule: "ACC"}, {Rule: "FLOW"}, {Rule: "FLD-W"}, {Rule: "FLD-P"}, {Rule: "ORD"}, {Rule: "OPC"}, {Rule: "ERR"}, {Rule: "NILMOD"}},
 	})
 	addProperty(&Property{
 		ID:         "C03",
@@ -44,10 +44,41 @@ func init() {
 		Rules:      []RuleUse{{Rule: "EQ-1"}, {Rule: "EQ-2"}, {Rule: "EQ-3"}, {Rule: "FLD-P", Filter: tag("types"), Floor: 15}, {Rule: "FLOW", Filter: tag("types"), Floor: 10}},
 	})
 	addProperty(&Property{
-		ID:    "C05",
-		Title: "Undefined or doubly defined names are reported as errors",
-		Decided: "no unchecked lookup in an index of definitions (LK-1); every lookup of a decoded identifier returns an error on a miss and the found object on a hit (LK-2); every insertion into an index is guarded by a duplicate test that always errors (DUP); errors of translator functions are propagated, never panicked or dropped (ERR); an error never comes with a module (NILMOD).",
+		ID:         "C05",
+		Title:      "Undefined or doubly defined names are reported as errors",
+		Decided:    "no unchecked lookup in an index of definitions (LK-1); every lookup of a decoded identifier returns an error on a miss and the found object on a hit (LK-2); every insertion into an index is guarded by a duplicate test that always errors (DUP); errors of translator functions are propagated, never panicked or dropped (ERR); an error never comes with a module (NILMOD).",
 		NotDecided: "reference sites that never reach a lookup at all (e.g. names only used by constructs the IR does not model); blockaddress placeholders (covered under C04 by TODO).",
-		Rules: []RuleUse{{Rule: "LK-1"}, {Rule: "LK-2"}, {Rule: "DUP"}, {Rule: "ERR"}, {Rule: "NILMOD"}},
+		Rules:      []RuleUse{{Rule: "LK-1"}, {Rule: "LK-2"}, {Rule: "DUP"}, {Rule: "ERR"}, {Rule: "NILMOD"}},
+	})
+	addProperty(&Property{
+		ID:         "C12",
+		Title:      "Translation is deterministic",
+		Decided:    "every range over a map in the translator and printer is collect-then-sort or has a commutative body (DET-1, all instances, closed over the call graph); nothing reachable from Parse* or printing writes package-level state in llir/llvm, llir/ll or mewmew/float (DET-2); every entry point funnels into ParseString → translate (DET-3); every emitted list is in sorted or recorded textual order (ORD-SORT).",
+		NotDecided: "totality of the natural-sort comparison on which sorted results rely (see C20); determinism of the generated LALR parser beyond writing no package-level state; per-entity objects shared between two map iterations (type-based commutativity argument).",
+		Technique:  "static analysis: SSA write-effect summaries closed over the VTA call graph (freshness, singleton-type classification) + go/ast idiom rules for map ranges (DET-1, DET-2, DET-3, ORD-SORT)",
+		Rules:      []RuleUse{{Rule: "DET-1"}, {Rule: "DET-2"}, {Rule: "DET-3"}, {Rule: "ORD-SORT"}},
+	})
+	addProperty(&Property{
+		ID:         "C13",
+		Title:      "A module can be printed from many goroutines at once",
+		Decided:    "the only shared memory printing can write (String, WriteTo, LLString, Ident, Type, Name and everything reachable) is the ID fields and lazily cached result types — every other write is to memory allocated by the same call (RACE-1); every ID store happens under the owner's mutex and only when the ID changes or is unassigned, so printers of an already numbered object do not write (RACE-2); every allocation site of a type with a lazy result-type cache fills the cache before the value escapes, so the cache write is dead (RACE-3, CTOR-2).",
+		NotDecided: "the first, numbering print racing with lock-free readers in other goroutines (cross-object reads such as a blockaddress of a not yet numbered block of another function); equality of the texts returned by concurrent calls as such.",
+		Technique:  "static analysis: SSA write-effect closure over the VTA call graph with interprocedural freshness (lockset/guard argument), plus go/ast rules for the lock prologue and change guard (RACE-1, RACE-2, RACE-3)",
+		Rules:      []RuleUse{{Rule: "RACE-1"}, {Rule: "RACE-2"}, {Rule: "RACE-3"}, {Rule: "CTOR-2"}},
+	})
+	addProperty(&Property{
+		ID:         "C14",
+		Title:      "Observing the IR never changes it",
+		Decided:    "observers (printing, Type, Ident, Operands, Succs, Sig, ID, IsUnnamed, MDAttachments) write no shared memory other than ID fields, result-type caches and successor caches — no observer sorts, appends to or normalises an IR field (OBS-1); result-type caches are already filled when an observer runs (RACE-3); no numbering routine fails depending on IDs an earlier observation assigned (OBS-4); renaming clears the ID (OBS-5).",
+		NotDecided: "equality of the final texts for every history as such; staleness of the successor cache after a target is replaced through an operand slot (reported under C15 when OPS-4 is armed).",
+		Technique:  "static analysis: SSA write-effect closure from the observer entry points + go/ast rules on the numbering routines (OBS-1, OBS-4, OBS-5, RACE-3)",
+		Rules:      []RuleUse{{Rule: "OBS-1"}, {Rule: "OBS-4"}, {Rule: "OBS-5"}, {Rule: "RACE-3"}},
+	})
+	addProperty(&Property{
+		ID:         "C20",
+		Title:      "Definitions are printed in a canonical, input-order-independent order",
+		Decided:    "every list the printer emits is filled from keys sorted by the stated comparator (natural order for types, comdats, named metadata; ascending numeric for attribute groups and metadata) or from the recorded textual order of globals, and WriteTo emits each list by an in-order range (ORD-SORT); every map range is collect-then-sort or commutative (DET-1).",
+		NotDecided: "that natsort.Less is a strict total order comparing digit runs numerically — an order-axiom statement over all strings that no structural rule establishes; the property's first sentence is therefore NOT decided.",
+		Rules:      []RuleUse{{Rule: "ORD-SORT"}, {Rule: "DET-1"}},
 	})
 }
